@@ -37,7 +37,7 @@ CLAIMS = {
             "independent-reader oracle), CP437 table, DEFLATE data opaque.", "DESIGN.md section 5-C03"),
     "C07": ("PARTIAL. Coq theorems: gzip, ar and pyc-zero-mtime find nothing to change in their own output (all inputs, all epochs); a zip/jar member is not later than the epoch after the clamp and a second pass over a written archive of settled members reports nothing; for ANY handler "
             "whose byte-level function is idempotent, a fault-free run that replaced a single-link file is followed by a run that reports Noop, and a run that does not report Replaced leaves the file's "
-            "bytes, inode and metadata alone (any fault). Idempotence of the byte-level functions of javadoc and pyc is not yet closed in Coq (zip under well-formedness side conditions): it is decided by re-running model and "
+            "bytes, inode and metadata alone (any fault). For javadoc the stamp pass is proved idempotent (no stamp text is left after one pass), the date-tag pass and the document level are not; for pyc byte-level idempotence is not closed in Coq (zip holds under well-formedness side conditions): it is decided by re-running model and "
             "implementation on every output of a modifying first run (all six handlers, generated inputs) and by CLI runs run;run;--check in the four serial/parallel combinations with inode/mtime snapshots.",
             "Modelled, not verified: the parallel controller; the multi-link rewrite path is covered by the tree runs.", "DESIGN.md section 5-C07"),
     "C08": ("Coq theorems for every byte string: none of the modelled handlers (gzip, ar, javadoc, pyc incl. the recursive marshal reader with its depth limit, pyc-zero-mtime) can reach a panic; "
